@@ -601,6 +601,57 @@ fn main() {
         let r = (u.r_m2(1, 2), u.r_m2(1, 1), u.r_m2(2, 2), u.r_m2(2, 1));
         check("sel.matching-two-eq-operands", r == (10, 20, 20, 20), format!("ret={r:?}"));
     });
+    // an `ident @ subpattern` argument pattern next to wildcards / plain bindings is as refutable as its sub-pattern
+    run_case("sel.matching-at-binding", || {
+        let u = Unimock::new((
+            SelMock::two.each_call(matching!(_n @ 1..=5, _)).returns(10u32).at_least_times(0),
+            SelMock::two.each_call(matching!(_m @ (7 | 8), _q)).returns(15u32).at_least_times(0),
+            SelMock::two.each_call(matching!(_, _)).returns(20u32).at_least_times(0),
+        ));
+        let r = (u.two(3, "x".into()), u.two(9, "x".into()), u.two(5, "y".into()), u.two(8, "q".into()), u.two(0, "y".into()));
+        check("sel.matching-at-binding", r == (10, 20, 10, 15, 20), format!("ret={r:?}"));
+    });
+    // ordered slot whose pattern has several alternatives under one guard: a call fitting the FIRST alternative with the guard false is rejected
+    run_case("ord.matching-guard-over-alternatives", || {
+        let mk = || Unimock::new(SelMock::two.next_call(matching!((1, x) | (2, x) if x.len() > 1)).returns(10u32));
+        let (u1, u2, u3) = (mk(), mk(), mk());
+        let ok = (u1.two(1, "ab".into()), u2.two(2, "ab".into()));
+        let r = std::panic::catch_unwind(std::panic::AssertUnwindSafe(|| u3.two(1, "a".into())));
+        let msg = match &r { Ok(v) => format!("returned {v}"), Err(p) => p.downcast_ref::<String>().cloned().unwrap_or_default() };
+        let _ = std::panic::catch_unwind(std::panic::AssertUnwindSafe(move || drop(u3)));
+        check("ord.matching-guard-over-alternatives", ok == (10, 10) && r.is_err() && msg.contains("two"), format!("accepted={ok:?} call-with-guard-false={msg:?}"));
+    });
+    // a guard over several alternatives applies to every alternative: a call fitting a later alternative with the guard false is
+    // rejected — loudly in a strict mock, handed to the registered real function in a partial one — and is not counted
+    run_case("ref.unmock.guard-over-alternatives-strict", || {
+        let u = Unimock::new(RefMock::r_m2.each_call(matching!((1, x) | (2, x) | (_, x @ 100) if *x > 5)).returns(10u32).at_least_times(0));
+        let ok = (u.r_m2(1, 7), u.r_m2(2, 7), u.r_m2(9, 100));
+        let r = std::panic::catch_unwind(std::panic::AssertUnwindSafe(|| u.r_m2(2, 3)));
+        let msg = match &r { Ok(v) => format!("returned {v}"), Err(p) => p.downcast_ref::<String>().cloned().unwrap_or_default() };
+        let n = count_of(&u, "r_m2");
+        let _ = std::panic::catch_unwind(std::panic::AssertUnwindSafe(move || drop(u)));
+        check("ref.unmock.guard-over-alternatives-strict", ok == (10, 10, 10) && msg.contains("No matching call patterns") && n == 3, format!("accepted={ok:?} rejected-call={msg:?} count={n}"));
+    });
+    run_case("ref.unmock.guard-over-alternatives-partial", || {
+        let u = Unimock::new_partial((RefMock::r_m2.each_call(matching!((1, x) | (2, x) if *x > 5)).returns(10u32).at_least_times(0), RefMock::r_req.each_call(matching!(_, _)).answers(&|_, a, b| { see(format!("req({a},{b})")); a + b })));
+        let r = (u.r_m2(2, 7), u.r_m2(2, 3));
+        let s = seen();
+        let n = count_of(&u, "r_m2");
+        check("ref.unmock.guard-over-alternatives-partial", r.0 == 10 && r.1 != 10 && s.first().map(|x| x.as_str()) == Some("real_ref2(2,3)") && n == 1, format!("ret={r:?} seen={s:?} count={n}"));
+    });
+    // an ordered pattern covering several calls shows EVERY call's own arguments to its matcher, and judges each by them
+    run_case("ref.m2.ordered-repeat-matcher-sees-every-call", || {
+        let u = Unimock::new(RefMock::r_m2.next_call(&|m| m.func(|(a, b), _| { see(format!("match({a},{b})")); *a < 100 })).answers(&|_, a, b| a + b).n_times(3));
+        let r = (u.r_m2(1, 2), u.r_m2(3, 4), u.r_m2(5, 6));
+        let s = seen();
+        let u2 = Unimock::new(RefMock::r_m2.next_call(matching!(1, _)).returns(5u32).n_times(2));
+        let first = u2.r_m2(1, 0);
+        let second = std::panic::catch_unwind(std::panic::AssertUnwindSafe(|| u2.r_m2(2, 0)));
+        let msg = match &second { Ok(v) => format!("returned {v}"), Err(p) => p.downcast_ref::<String>().cloned().unwrap_or_default() };
+        let _ = std::panic::catch_unwind(std::panic::AssertUnwindSafe(move || drop(u2)));
+        check("ref.m2.ordered-repeat-matcher-sees-every-call", r == (3, 7, 11) && s == ["match(1,2)", "match(3,4)", "match(5,6)"] && first == 5 && second.is_err() && msg.contains("r_m2"),
+              format!("ret={r:?} matcher-saw={s:?} first={first} second-call-with-rejected-arguments={msg:?}"));
+    });
     run_case("ord.matching-second-alternative", || {
         let u = Unimock::new((
             SelMock::two.next_call(matching!((1, _) | (_, "z"))).returns(10u32),
